@@ -201,9 +201,15 @@ def _splice_fn(src_text, f, counts):
     if "R2" in rules:
         body = _apply_r2(body, counts)
     for (a, b) in f.get("body_rewrites", []):
-        if a not in body:
-            raise Undecided("lost anchor in body of %s: %r" % (f["name"], a))
-        body = body.replace(a, b)
+        if a.startswith("re:"):
+            # pattern form: whitespace / a closure parameter's name may vary; the replacement may refer to groups
+            body, n = re.subn(a[3:], b, body)
+            if n != 1:
+                raise Undecided("lost anchor in body of %s: pattern %r matches %d times" % (f["name"], a[3:], n))
+        else:
+            if a not in body:
+                raise Undecided("lost anchor in body of %s: %r" % (f["name"], a))
+            body = body.replace(a, b)
         counts["custom"] = counts.get("custom", 0) + 1
     # closure contracts: annotation only. {"after": text that precedes the closure, "params": typed parameter list,
     # "ret": "name: Type", "requires"/"ensures": clauses}. The closure's BODY TEXT IS KEPT VERBATIM (an expression body is
@@ -396,9 +402,11 @@ def build_unit(scratch, name, unit, force_stub=None):
                 # not take the rest of the unit down: that function becomes a stub carrying its contract (its own
                 # obligation is undecided), every other function of the unit is still checked - against that contract
                 txt = _stub_fn(src, it)
-                if txt is None:
-                    raise
                 lost[it.get("key") or it["name"]] = str(e)
+                if txt is None:
+                    # the function itself is gone (inlined into its caller, renamed): leave it out. Its obligation is
+                    # undecided; callers that still name it fail in the front end and are stubbed by the retry in run_unit
+                    continue
             if it.get("impl_of"):
                 txt = "impl %s {\n%s}\n" % (it.get("impl_header", it["impl_of"]), txt)
             start = sum(p.count("\n") for p in parts) + 1
